@@ -216,3 +216,12 @@ package nsx
 //vc:  assign after "changes = append(changes, change{" lastObjDeleted = ga.Id
 //vc:  assert[C04] at "changes = append(changes, change{" @unusedGroupDeletedByItsId !ga.needed && url == "/policy/api/v1/infra/domains/default/groups/" + ga.Id
 //vc:  invariant[C04] 1 "for _, ga := range a.Groups" @everyUnusedGroupDeleted forall k int :: { a.Groups[k] } k == rangeindex && 0 <= k && !a.Groups[k].needed ==> lastObjDeleted == a.Groups[k].Id
+
+// groupEq (closure 1 of rulesPair.Equal): two rules that name the same group
+// path agree in that position, whether or not the group is defined on either
+// side (a rule from a raw file may refer to a group of the device that Netspoc
+// does not define: the pair must count as equal, so that equalizeGroups marks
+// the group as needed instead of the rule being re-created and the group deleted).
+//vc:func (*rulesPair).Equal$1
+//vc:  inline
+//vc:  ensures[C04] @sameReferenceAgrees a == b ==> result
